@@ -645,7 +645,7 @@ pub fn run(ctx: &Ctx) -> Report {
     ];
     Report {
         tally,
-        rule: "random sample of the product {option absent / valid / invalid} x {metadata absent / valid / invalid} for area, k_exp, RED1, RED2 and {-f file with / without RED1 line, -l, CTE_LOCALIZACION valid / invalid / absent}, value classes in range, boundary (0, 1, 0.001, 0.0011), out of range and non-numeric text, on a fixed four-carrier building that exports PV (so every parameter changes the result); each configuration is run through the real binary with --json and --oc and compared with a decision table written from the property text: exit code, the three echo lines, values in the JSON, factors used, metadata saved, and the results recomputed in-process with the effective values; non-trivial = every configuration (each is a distinct point of the table); distinct = distinct configuration".into(),
+        rule: "random sample of the product {option absent / valid / invalid} x {metadata absent / valid / invalid} for area, k_exp, RED1, RED2 and {-f file with / without RED1 line, -l, CTE_LOCALIZACION valid / invalid / absent}, value classes in range, boundary (0, 1, 0.001, 0.0011), out of range and non-numeric text, on a fixed four-carrier building that exports PV (so every parameter changes the result); each configuration is run through the real binary with --json and --oc and compared with a decision table written from the property text: exit code, the three echo lines, values in the JSON, factors used, metadata saved, and the results recomputed in-process with the effective values; non-trivial = every configuration (each is a distinct point of the table); distinct = distinct configuration; second session: values also in exponent / signed / bare-dot notation, metadata in the legacy spelling, written twice, and placed anywhere in the file, -v / -vv / -v -v -v, runs without components (no -c, metadata only, DEMANDA only), user RED values equal to the built-in default, RED factors compared with the decision table directly".into(),
         assumptions: vec![
             "an invalid metadata value next to a valid option may be refused (65) or ignored (0): both accepted".into(),
             "negative option values are passed as --opt=value so that the option parser does not take them for flags".into(),
